@@ -94,7 +94,8 @@ def gen_py(rng, ty, small=False):
     if k == "fixlist":
         return ty([gen_py(rng, ty._item_type, True) for _ in range(c[1])])
     if k == "greedy":
-        n = rng.choice([1, 2, 5]) if rng.random() < 0.5 else rng.randrange(1, 30 if not small else 5)
+        # boundary: the empty list (encodes to zero bytes) is a legal value of a greedy list
+        n = rng.choice([0, 0, 1, 2, 5]) if rng.random() < 0.5 else rng.randrange(0, 30 if not small else 5)
         return ty([gen_py(rng, ty._item_type, True) for _ in range(n)])
     if k == "struct":
         kw = {}
@@ -131,7 +132,12 @@ def gen_assignment(rng, cls):
     for p in cls.schema:
         if p.optional and p.name not in given_opts:
             continue
-        kw[p.name] = gen_py(rng, p.type)
+        v = gen_py(rng, p.type)
+        # an OPTIONAL greedy list that is given but empty is indistinguishable on the wire from an absent one
+        # (the model refuses to encode it): keep given optional greedy lists non-empty
+        while p.optional and classify(p.type)[0] == "greedy" and len(v) == 0:
+            v = gen_py(rng, p.type)
+        kw[p.name] = v
     return kw
 
 
